@@ -84,6 +84,17 @@ def gen_cases(tier, seed):
                 s['seed'] = rng.randrange(1 << 30)
                 s['plan'] = {'faults': [{'at': at, 'phase': ph, 'kind': 'retry500', 'tag': 'FAULT-retry'}]}
                 cases.append(s)
+    # everything inline in the caller's thread (NonThreadedExecutor), incl. faults that are BaseExceptions but not Exceptions (Ctrl-C
+    # while a part is being sent): they travel up through the submission task, which fails the transfer and aborts the upload
+    for src in ('path', 'nonseekable', 'copy'):
+        t = {'kind': 'copy', 'size': 20} if src == 'copy' else {'kind': 'upload', 'src': src, 'size': 20}
+        op = 'UploadPartCopy' if src == 'copy' else 'UploadPart'
+        for site in ('t0/s3:CreateMultipartUpload#0', f't0/s3:{op}:1#0', f't0/s3:{op}:2#0', f't0/s3:{op}:3#0', 't0/s3:CompleteMultipartUpload#0'):
+            for kind in ('base', 'exc'):
+                for ph in ('before', 'after'):
+                    cases.append({'min_part': 8, 'executor': 'nonthreaded', 'seed': rng.randrange(1 << 30), 'family': 'nonthreaded',
+                                  'config': dict(multipart_threshold=16, multipart_chunksize=8), 'transfers': [dict(t)],
+                                  'plan': {'faults': [{'at': site, 'phase': ph, 'kind': kind, 'tag': 'FAULT-nt'}]}})
     # two steps: the transfer is cancelled (or a part fails) while requests are held in flight, and THEN the submission itself fails
     # (the stream being read on the submission thread raises - e.g. it was closed after the cancel): the abort still has to wait
     # for everything in flight, and an upload whose create request is still out must not be forgotten
